@@ -10,7 +10,8 @@ TRUSTED_BASE = [
     "translator go/cmd/qrb2coq (Go AST -> coq/Gen/*.v)",
     "reflective dump go/internal/dump + decoder coq/Model/Decode.v (abstraction from Go memory to model values)",
     "extraction: ExtrOcamlBasic, ExtrOcamlString (bool, option, list, prod, unit, sumbool, ascii => char, "
-    "string => char list); nat, N, Z stay Coq datatypes; OCaml driver ocaml/driver.ml",
+    "string => char list); nat, N, Z stay Coq datatypes; OCaml driver ocaml/driver.ml; a sample of the requests of every "
+    "correspondence is re-evaluated inside the kernel (vm_compute) and compared with the extracted program's answers",
     "Go standard library as specified: regexp (RE2 semantics), strconv, strings, sort, errors, unicode tables",
     "formalisation of PostgreSQL's lexer / grammar in coq/Pg (written from scan.l, gram.y and the manual)",
     "python orchestration lib/qrbverif (diffing, classification, evidence)",
